@@ -421,9 +421,10 @@ def r4(repo, res):
                     if isinstance(b, ast.Name) and b.id in mutable_globals and not _is_local(f, b.id):
                         res.ob("C14.R4", n, n, False, expected="no module-level mutable state written from a function",
                                found=f"`{b.id}` is module-level in aldy/{mname}.py", key=f"global:{mname}:{b.id}")
-            if any(isinstance(n, (ast.Global, ast.Nonlocal)) for n in walk_local(f)):
-                g = [n for n in walk_local(f) if isinstance(n, (ast.Global, ast.Nonlocal))][0]
-                res.ob("C14.R4", g, g, False, expected="no global/nonlocal rebinding in the package",
+            # `global x` rebinds module state; `nonlocal x` only rebinds a local of the enclosing call (it dies with that call) and is not state
+            if any(isinstance(n, ast.Global) for n in walk_local(f)):
+                g = [n for n in walk_local(f) if isinstance(n, ast.Global)][0]
+                res.ob("C14.R4", g, g, False, expected="no rebinding of module-level names from a function (`global`)",
                        found=ast.unparse(g), key=f"global-stmt:{mname}:{q}")
 
 
